@@ -1,7 +1,9 @@
 package checks
 
 import (
+	"bytes"
 	"context"
+	"encoding/base64"
 	"encoding/json"
 	"fmt"
 	"io"
@@ -286,6 +288,18 @@ func (r *C19Req) entitled() (must bool, may bool) {
 	case "cookie-expired":
 		// re-verified against GitHub: unspecified when GitHub still vouches
 		return false, r.GitHub == "inorg"
+	case "cookie-mutated":
+		// a mutation can be a different spelling of the same cookie (base64 has
+		// non-canonical encodings): what counts is whether the value still is a
+		// well-signed, unexpired session under the configured keys
+		var ad web.AuthData
+		sc := securecookie.New([]byte(c19HashKey), []byte(c19BlockKey))
+		if sc.Decode("authcookie", r.Value, &ad) == nil {
+			if ad.Expiration.After(time.Now()) {
+				return false, true
+			}
+			return false, r.GitHub == "inorg"
+		}
 	}
 	return false, false
 }
@@ -461,7 +475,15 @@ func TestC19Near(t *testing.T) {
 				r.Cred = "cookie-mutated"
 				switch rapid.IntRange(0, 2).Draw(rt, "ck") {
 				case 0:
-					r.Value = mutate(f.value("cookie-valid"))
+					orig := f.value("cookie-valid")
+					r.Value = mutate(orig)
+					// base64 has non-canonical spellings: a changed last character (or
+					// padding) that decodes to the same bytes IS the valid cookie
+					if a, errA := base64.URLEncoding.DecodeString(orig); errA == nil {
+						if b, errB := base64.URLEncoding.DecodeString(r.Value); errB == nil && bytes.Equal(a, b) {
+							r.Cred = "cookie-valid"
+						}
+					}
 				case 1:
 					r.Value = f.cookie(c19HashKey, c19BlockKey, time.Now().Add(-time.Duration(rapid.IntRange(1, 100000).Draw(rt, "ago"))*time.Second))
 					r.Cred = "cookie-expired"
